@@ -41,6 +41,143 @@ def run(ctx):
     c_no_module_state(ctx)
     d_instance_uids(ctx)
     b_else_binding(ctx)
+    b_branch_choice(ctx)
+    b_pass_is_noop(ctx)
+    d_waiting_flow_triggered(ctx)
+    c_history_only(ctx)
+
+
+def b_branch_choice(ctx):
+    """`when A ... else when B ...` is followed like an if / else-if chain: at a branching point the FIRST branch whose statement matches the event is taken (F98), and a
+    flow may START with such a block - the start of new flows resolves a `branch` element like the advance of running flows does (F99, sibling agreement)."""
+    t = ctx.tree.ast(FLOWS1)
+    cns = find_function(t, "compute_next_state")
+    if cns is None:
+        raise AnalysisError("compute_next_state not found", anchor=FLOWS1 + "::compute_next_state")
+    loops = [l for l in ast.walk(cns) if isinstance(l, ast.For) and "branch_heads" in src(l.iter)]
+    ctx.floor("C14.b.branch-choice", FLOWS1, "loops over the heads of a branching point", len(loops), 1)
+    for l in loops:
+        rev = "reversed(" in src(l.iter)
+        # the statement that records the chosen head, and whether the loop ends there
+        stores = [a for a in ast.walk(l) if isinstance(a, ast.Assign) and isinstance(a.targets[0], ast.Name) and "head" in a.targets[0].id]
+        first_wins = False
+        for a in stores:
+            blk = getattr(a, "_parent", None)
+            body = [x for f_ in ("body", "orelse") for x in (getattr(blk, f_, []) or [])]
+            later = body[body.index(a) + 1:] if a in body else []
+            if any(isinstance(x, (ast.Break, ast.Return)) for x in later):
+                first_wins = True
+        ok = (first_wins and not rev) or (rev and not first_wins)
+        ctx.check("C14.b.branch-choice", FLOWS1, "compute_next_state", "for %s in %s" % (src(l.target), first_line(l.iter, 50)), ok,
+                  "the first branch (in source order) whose statement matches the event is followed" if ok else
+                  "every matching branch overwrites the chosen head: with `when user A ... else when user ...` the LAST matching branch is followed, not the first "
+                  "(an `else when` that also matches wins over the branch written before it)", line=l.lineno)
+    # sibling agreement: elements are matched against the event at two places (running flows, new flows); both resolve a branching point
+    matchers = [i for i in ast.walk(cns) if isinstance(i, ast.If) and any(
+        isinstance(a_, ast.Compare) and len(a_.ops) == 1 and isinstance(a_.ops[0], ast.Eq) and any(isinstance(c_, ast.Constant) and c_.value == "branch" for c_ in [a_.left] + a_.comparators)
+        for a_ in atoms(i.test))]
+    starts = [c for c in ast.walk(cns) if isinstance(c, ast.Call) and src(c.func) == "FlowState" and any(k.arg == "head" for k in c.keywords)]
+    # the branch-aware test belongs to the start site when it sits in the same loop (the loop over the flow configurations) as the creation of the new instance
+    def _loop_of(n):
+        p_ = getattr(n, "_parent", None)
+        while p_ is not None and not isinstance(p_, (ast.For, ast.While)):
+            p_ = getattr(p_, "_parent", None)
+        return p_
+    start_aware = bool(starts) and all(any(_loop_of(m) is _loop_of(c) or any(m is x for x in ast.walk(_loop_of(c) or cns)) and _loop_of(c) is not None and
+                                           any(m is x for x in ast.walk(_loop_of(c))) for m in matchers) for c in starts)
+    ctx.check("C14.b.branch-choice", FLOWS1, "compute_next_state", "a new flow may start at a branching point", start_aware or not starts,
+              "both the advance of running flows and the start of new flows resolve a `branch` element to the first matching branch" if start_aware else
+              "only the advance of running flows resolves a `branch` element; the start of new flows matches the event against the `branch` pseudo element itself, which never "
+              "matches: a flow whose first statement is `when ... else when ...` is never started", line=(starts[0].lineno if starts else cns.lineno))
+
+
+def d_waiting_flow_triggered(ctx):
+    """A running flow is looked at for an event only if the event's type is one of the flow's trigger types; any other flow is copied unchanged.  A flow that is parked ON a
+    statement waiting for exactly this type of event (`event UserSilent` in the middle of a flow) must not be skipped that way (F101): either the skip test also looks at what
+    the flow waits for, or the loader registers the type of every event-matching element as a trigger type."""
+    t = ctx.tree.ast(FLOWS1)
+    cns = find_function(t, "compute_next_state")
+    skips = [i for i in ast.walk(cns) if isinstance(i, ast.If) and any(
+        isinstance(a_, ast.Compare) and len(a_.ops) == 1 and isinstance(a_.ops[0], (ast.In, ast.NotIn)) and "trigger_event_types" in src(a_.comparators[0]) for a_ in atoms(i.test))]
+    ctx.floor("C14.d.waiting-flow-triggered", FLOWS1, "skip of flows not triggered by the event type", len(skips), 1)
+    # names that describe what the flow is waiting for: derived from the element(s) at the flow's head
+    derived = set()
+    changed = True
+    while changed:
+        changed = False
+        for a in ast.walk(cns):
+            if isinstance(a, ast.Assign) and isinstance(a.targets[0], ast.Name) and a.targets[0].id not in derived:
+                txt = src(a.value)
+                if re.search(r"\.elements\[\s*flow_state\.head", txt) or any(isinstance(x, ast.Name) and x.id in derived for x in ast.walk(a.value)):
+                    derived.add(a.targets[0].id)
+                    changed = True
+    rt = ctx.tree.ast(RT1)
+    lf = None
+    for f in ast.walk(rt):
+        if isinstance(f, (ast.FunctionDef, ast.AsyncFunctionDef)) and f.name == "_load_flow_config":
+            lf = f
+    registers_all = lf is not None and any(
+        isinstance(c, ast.Call) and isinstance(c.func, ast.Attribute) and c.func.attr in ("append", "add") and "trigger_event_types" in src(c.func.value)
+        and c.args and re.sub(r"\s", "", src(c.args[0])) in ("element['_type']", 'element["_type"]') for c in ast.walk(lf))
+    for i in skips:
+        looks = any(isinstance(x, ast.Name) and x.id in derived for x in ast.walk(i.test)) or re.search(r"\.elements\[\s*flow_state\.head", src(i.test)) is not None
+        ok = looks or registers_all
+        ctx.check("C14.d.waiting-flow-triggered", FLOWS1, "compute_next_state", "flows that do not list the event type as a trigger are skipped", ok,
+                  "a flow parked on a statement that waits for this type of event is not skipped" if ok else
+                  "the skip depends on the flow's static trigger types only: a flow that matched up to `event X` in its middle is never advanced when X arrives (X is not a trigger "
+                  "type unless the flow itself creates it), so its next statement is never decided", line=i.lineno)
+
+
+def c_history_only(ctx):
+    """`The decision is a function of the event history alone`: multi-step generation announces an LLM-generated flow by a `start_flow` event that carries the flow's body.  The
+    flow must be known whenever that event is in the history - not only on the instance that happened to process it as the newest event (F102)."""
+    rt = ctx.tree.ast(RT1)
+    ge = psf = None
+    for f in ast.walk(rt):
+        if isinstance(f, (ast.FunctionDef, ast.AsyncFunctionDef)):
+            if f.name == "generate_events":
+                ge = f
+            if f.name == "_process_start_flow":
+                psf = f
+    if ge is None or psf is None:
+        raise AnalysisError("generate_events / _process_start_flow not found", anchor=RT1 + "::generate_events")
+    registers = any(isinstance(c, ast.Call) and src(c.func) == "self._load_flow_config" for c in ast.walk(psf))
+    if not registers:
+        ctx.check("C14.c.history-only", RT1, "RuntimeV1_0._process_start_flow", "dynamic flows", True, "dynamic flows are not kept on the instance", line=psf.lineno)
+        return
+    # somewhere on the way to the replay the whole history is scanned for start_flow events (a loop over the events that registers unknown flows)
+    scans = [l for l in ast.walk(ge) if isinstance(l, ast.For) and "events" in src(l.iter) and "start_flow" in src(l)
+             and any(isinstance(c, ast.Call) and "flow" in src(c.func) and src(c.func).startswith("self.") for c in ast.walk(l))]
+    ctx.check("C14.c.history-only", RT1, "RuntimeV1_0.generate_events", "flows announced by start_flow events of the history are registered", bool(scans),
+              "every start_flow event of the history registers its flow before the history is replayed" if scans else
+              "an LLM-generated flow is registered only while its start_flow event is the LAST event, and only on the instance that processes it: replaying the same history on "
+              "another instance (or after a restart) decides differently - the generated flow is unknown there", line=ge.lineno)
+
+
+def b_pass_is_noop(ctx):
+    """`pass` does nothing.  The compiler must not map it to the element that `continue` maps to: inside a `while` body every element carries `_next_on_continue`, and
+    slide() follows it for a `continue` element - the rest of the iteration would be skipped (F100)."""
+    t = ctx.tree.ast(COYML)
+    fn = find_function(t, "_dict_to_element")
+    if fn is None:
+        raise AnalysisError("_dict_to_element not found", anchor=COYML + "::_dict_to_element")
+    bad = None
+    seen = False
+    for i in ast.walk(fn):
+        if isinstance(i, ast.If):
+            for a_ in atoms(i.test):
+                if isinstance(a_, ast.Compare) and len(a_.ops) == 1 and isinstance(a_.ops[0], (ast.In, ast.Eq)) and \
+                        any(isinstance(c_, ast.Constant) and c_.value == "pass" for c_ in ast.walk(a_)):
+                    seen = True
+                    v = cond_truth(i.test, {atom_key(a_)[0]: True})
+                    blk = side(i, v) if v is not None else i.body
+                    for d in [x for st in blk for x in ast.walk(st) if isinstance(x, ast.Dict)]:
+                        for k, val in zip(d.keys, d.values):
+                            if isinstance(k, ast.Constant) and k.value == "_type" and isinstance(val, ast.Constant) and val.value == "continue":
+                                bad = i
+    ctx.check("C14.b.pass-noop", COYML, "_dict_to_element", "element compiled for `pass`", seen and bad is None,
+              "`pass` compiles to an element of its own (a jump to the next element), not to `continue`" if seen and bad is None else
+              "`pass` compiles to the same element as `continue`: inside a `while` body the rest of the iteration is skipped when it runs", line=(bad.lineno if bad is not None else fn.lineno))
 
 
 # ---------------------------------------------------------------------------------
@@ -548,6 +685,9 @@ def f_decision_priority(ctx):
         for a_ in atoms(i.test):
             if isinstance(a_, ast.Compare) and len(a_.ops) == 1 and isinstance(a_.ops[0], (ast.In, ast.NotIn)) and "trigger_event_types" in src(a_.comparators[0]):
                 v = cond_truth(i.test, {atom_key(a_)[0]: False})      # the side taken when the event is NOT one of the flow's triggers
+                if v is None:
+                    # ... and nothing else makes the flow a candidate (every other atomic test false, e.g. "the flow waits for this event")
+                    v = cond_truth(i.test, {atom_key(a_)[0]: False, (lambda e: True): False})
                 if v is not None:
                     stale = side(i, v)
     if stale is None:
